@@ -3,10 +3,12 @@
 
    Reading guide.  [rx] is ANY regular-expression oracle (pattern -> subject -> bool): the theorems
    hold for all of them.  [n] is the number of shards, [ops] ANY history (list of steps: writes that
-   create series, DELETE / DROP SERIES with predicate over any shards, DROP MEASUREMENT, TSI log and
-   level compactions, series-file compactions, cache snapshots, close/reopen), [q] ANY query
-   (measurement names, tag keys, tag values, series keys - each with an optional predicate built from
-   =, !=, =~, !~, AND, OR - exact cardinalities, series-file listing).  [run_spec] folds the history
+   create series, DELETE / DROP SERIES with predicate over any shards, DROP MEASUREMENT, deletion of a
+   whole shard (retention; the in-memory index is NOT rebuilt after it, measurements stay dirty), TSI log and
+   level compactions, series-file compactions and segment roll-overs, cache snapshots, close/reopen),
+   [q] ANY query (measurement names, tag keys, tag values, series keys - each with an optional predicate
+   built from =, !=, =~, !~, AND, OR - exact cardinalities, series-file listing, and the series listing of
+   a shard answered by a TSI index built offline from the shard's data (buildtsi) with any batch size).  [run_spec] folds the history
    over the abstract set of (shard, series) pairs; [spec_answer] projects it.  [is_run]/[is_answer] is
    the store with the in-memory index, [ts_run]/[ts_answer] the store with the TSI (LSM) index.
    [wf_ops]: tag lists of written series have distinct keys and non-empty values (models.Tags);
@@ -15,7 +17,7 @@
    Partial by design: TSI / series-file byte formats, hash indexes, bloom filters and HLL sketches
    are abstracted to entry lists (cardinality ESTIMATES are outside; the exact bitmap path is in);
    a TSI index and the series file are modelled with one partition instead of eight. *)
-From Verif Require Import C14.Spec C14.Model C14.Run C14.ProofsSfile C14.ProofsQuery C14.ProofsLsmF C14.Proofs.
+From Verif Require Import C14.Spec C14.Model C14.Run C14.ProofsSfile C14.ProofsQuery C14.ProofsClean C14.ProofsLsmF C14.ProofsConv C14.ProofsSorted C14.Proofs.
 
 (* every listing of the in-memory index, after any history, is the projection of the abstract set:
    nothing written is missing, nothing dropped lingers or returns *)
@@ -62,6 +64,52 @@ Theorem sfile_compaction_preserves :
 Proof. exact sf_compact_spec. Qed.
 Print Assumptions sfile_compaction_preserves.
 
+(* the series file hands out fresh ids after a restart: after any history, reopening the series file
+   changes nothing - in particular the next id recovered from the segment files (newest segment that
+   holds an insert entry; roll-overs may leave segments without one) is the one in memory - and that
+   id lies above every id that has a key *)
+Theorem sfile_next_id_recovered :
+  forall (rx : str -> str -> bool) (n : nat) (ops : list op),
+    wf_ops ops = true ->
+    let sft := ts_sf (ts_run rx n ops) in
+    let sfi := is_sf (is_run rx n ops) in
+    (sf_reopen sft = sft /\ forall i s, sf_key sft i = Some s -> (i < seg_recover (sf_segs sft))%N) /\
+    (sf_reopen sfi = sfi /\ forall i s, sf_key sfi i = Some s -> (i < seg_recover (sf_segs sfi))%N).
+Proof. exact next_id_recovery. Qed.
+Print Assumptions sfile_next_id_recovered.
+
+(* offline conversion (influx_inspect buildtsi): a TSI index built with DisableFsync - log entries
+   buffered, flushed when the buffer of ANY capacity bsz fills up and by Close - from ANY list of
+   well-formed series keys in batches of ANY size, with or without log/level compactions after each
+   batch, then closed and opened, lists exactly those keys under every predicate *)
+Theorem offline_conversion_lists_keys :
+  forall (rx : str -> str -> bool) (sf : sfile) (keys : list series) (bsz : nat) (small : bool)
+         (S : list series) (m : str) (c : option pred),
+    sf_inv sf -> (forall s, In s keys -> wf_series s = true) -> (forall s, In s S <-> In s keys) -> (1 <= bsz)%nat ->
+    forall r, In r (q_series rx (tsi_prims (snd (cv_index sf keys bsz small))) (fst (cv_index sf keys bsz small)) m c)
+              <-> In r (map series_row (series_of rx S m c)).
+Proof. exact conv_lists_keys. Qed.
+Print Assumptions offline_conversion_lists_keys.
+
+(* the query layer does not see ids the series file has deleted: over ANY index whose tag key / tag
+   value series lists may still hold such ids (the in-memory index between DropSeriesGlobal and the
+   next Rebuild), it answers as over the index read through the series file's deleted flags *)
+Theorem query_layer_ignores_deleted_ids :
+  forall rx pr sf L U, refines (clean_prims sf pr) sf L U ->
+  forall m c r, In r (q_series rx pr sf m c) <-> In r (map series_row (series_of rx U m c)).
+Proof. exact q_series_ok'. Qed.
+Print Assumptions query_layer_ignores_deleted_ids.
+
+(* the lazily sorted id list of an in-memory measurement object (measurement.sortedSeriesIDs, trusted
+   by SeriesIDs() when it is as long as the seriesByID map): after ANY sequence of AddSeries,
+   DropSeries and SeriesIDs calls, SeriesIDs() returns exactly the ids of the map, once each *)
+Theorem sorted_id_cache_transparent :
+  forall ops : list mop,
+    let c := mc_run ops in
+    NoDup (snd (mc_list c)) /\ forall i, In i (snd (mc_list c)) <-> In i (mc_ids c).
+Proof. exact mc_list_exact. Qed.
+Print Assumptions sorted_id_cache_transparent.
+
 (* corollary: both index types answer every question identically *)
 Corollary inmem_eq_lsm :
   forall (rx : str -> str -> bool) (n : nat) (ops : list op) (q : query),
@@ -96,7 +144,8 @@ Definition s_mem_a : series := ([109;101;109], [([104], [97])])%N.              
 Definition ex_ops : list op :=
   [OWrite 1 [s_cpu_a; s_cpu_b; s_mem_a]; OWrite 2 [s_cpu_a]; OCompactLog 1;
    ODelete [1] [[99;112;117]%N] (Some (PEq [104]%N [97]%N));          (* DELETE FROM cpu WHERE h='a' in shard 1 *)
-   OCompactLog 1; OCompactLevel 1 1; OSfCompact; OReopen; OWrite 1 [s_cpu_a]; ODropM [109;101;109]%N].
+   OCompactLog 1; OCompactLevel 1 1; OSfCompact; OSfRoll; OReopen; OWrite 1 [s_cpu_a]; ODropM [109;101;109]%N;
+   ODropShard 2; OWrite 2 [s_mem_a]].
 
 Example history_is_wellformed : wf_ops ex_ops = true /\ wf_query 2 (QShSeries 1 [99;112;117]%N None) = true.
 Proof. vm_compute. split; reflexivity. Qed.
@@ -105,9 +154,33 @@ Proof. vm_compute. split; reflexivity. Qed.
 Example lsm_answers_nontrivial :
   ts_answer ex_rx (ts_run ex_rx 2 ex_ops) (QTagVals [99;112;117]%N [104]%N None)
   = ARows [[[99;112;117]; [104]; [98]]; [[99;112;117]; [104]; [97]]]%N /\
-  ts_answer ex_rx (ts_run ex_rx 2 ex_ops) QCard = ANums [2; 2; 1]%N /\
-  spec_answer ex_rx 2 (run_spec ex_rx 2 ex_ops) (QNames None) = ARows [[[99;112;117]%N]].
+  ts_answer ex_rx (ts_run ex_rx 2 ex_ops) QCard = ANums [3; 2; 1]%N /\
+  spec_answer ex_rx 2 (run_spec ex_rx 2 ex_ops) (QNames None) = ARows [[[109;101;109]%N]; [[99;112;117]%N]].
 Proof. vm_compute. repeat split; reflexivity. Qed.
+
+(* the roll-over before the reopen left an active segment without an insert entry: the next id
+   comes from the older segment; the converted index of shard 1 lists its two series *)
+Example next_id_from_older_segment :
+  sf_segs (ts_sf (ts_run ex_rx 2 (firstn 9 ex_ops))) = [0; 3]%N /\ sf_next (ts_sf (ts_run ex_rx 2 (firstn 9 ex_ops))) = 4%N /\
+  sf_segs (ts_sf (ts_run ex_rx 2 ex_ops)) = [4; 3]%N /\
+  ts_answer ex_rx (ts_run ex_rx 2 ex_ops) (QConv 1 1 true [99;112;117]%N None)
+  = ARows [[[99;112;117]; [104]; [98]; [114]; [120]]; [[99;112;117]; [104]; [97]; [114]; [120]]]%N.
+Proof. vm_compute. repeat split; reflexivity. Qed.
+
+(* a deleted shard leaves the in-memory index dirty (no Rebuild): the tag entry of the dropped series
+   cpu,h=a lingers, the answers do not show it *)
+Definition ex_ops_dirty : list op := [OWrite 1 [s_cpu_a]; OWrite 2 [s_cpu_b]; ODropShard 1; OWrite 1 [s_mem_a]].
+Example dirty_index_answers :
+  ix_dirty (is_ix (is_run ex_rx 2 ex_ops_dirty)) = [[99;112;117]%N] /\
+  p_vseries (ix_prims (is_ix (is_run ex_rx 2 ex_ops_dirty))) [99;112;117]%N [104]%N [97]%N = [1%N] /\
+  is_answer ex_rx (is_run ex_rx 2 ex_ops_dirty) (QTagVals [99;112;117]%N [104]%N None) = ARows [[[99;112;117]; [104]; [98]]]%N /\
+  is_answer ex_rx (is_run ex_rx 2 ex_ops_dirty) (QSeries [99;112;117]%N (Some (PNeq [104]%N [98]%N))) = ARows [].
+Proof. vm_compute. repeat split; reflexivity. Qed.
+
+(* the cached id list of a measurement: add 5, add 3 (not appended: out of order), drop 5, list *)
+Example sorted_cache_example :
+  mc_sorted (mc_run [MAdd 5; MAdd 3]%N) = [5%N] /\ mc_list (mc_run [MAdd 5; MAdd 3; MDrop 5]%N) = (mkMc [3%N] [3%N], [3%N]).
+Proof. vm_compute. split; reflexivity. Qed.
 
 Example case_of_the_model_passes :
   check_case (Case 2 [] ex_ops (QShSeries 1 [99;112;117]%N (Some (PNeq [104]%N [98]%N))) true
